@@ -9,6 +9,7 @@ import subprocess
 import sys
 import time
 
+T_PROCESS = time.time()
 VERIF = os.path.dirname(os.path.dirname(os.path.abspath(__file__)))
 REPO = os.environ.get("JAQ_REPO", "/repo")
 CACHE = os.path.join(VERIF, ".cache")
@@ -215,6 +216,92 @@ class Facts:
         return [b for b in self.mir(crate) if b.get("root") == path and b["def"] != path]
 
 
+class Overlay(Facts):
+    """Facts of the current tree with some bodies replaced by recorded bodies of code that is known to
+    violate a rule (positive controls)."""
+
+    def __init__(self, base, fixture):
+        super().__init__(base.dir, base.crates, base.bin_crate)
+        self.fx = fixture
+        self._cache = {}
+
+    def _merge(self, crate, kind, base_list):
+        key = (crate, kind)
+        if key not in self._cache:
+            repl = {b["def"]: b for b in self.fx.get(kind, {}).get(crate, [])}
+            out = [repl.pop(b["def"], b) for b in base_list]
+            out.extend(repl.values())
+            self._cache[key] = out
+        return self._cache[key]
+
+    def hir(self, crate):
+        return self._merge(crate, "hir", super().hir(crate))
+
+    def mir(self, crate):
+        return self._merge(crate, "mir", super().mir(crate))
+
+    def items(self, crate):
+        it = super().items(crate)
+        extra = self.fx.get("items", {}).get(crate)
+        if extra:
+            it = dict(it)
+            for k, v in extra.items():
+                it[k] = list(it.get(k, [])) + v
+        return it
+
+    def mono(self):
+        m = super().mono()
+        patch = self.fx.get("mono")
+        if not patch:
+            return m
+        key = ("mono",)
+        if key not in self._cache:
+            import copy
+            m2 = {k: (list(v) if isinstance(v, list) else v) for k, v in m.items()}
+            base = len(m2["nodes"])
+            for i, n in enumerate(patch.get("nodes", [])):
+                n = dict(n, id=base + i)
+                m2["nodes"].append(n)
+            def ref(x):
+                if isinstance(x, str) and x.startswith("new:"):
+                    return base + int(x[4:])
+                if isinstance(x, str) and x.startswith("def:"):
+                    return next(i for i, n in enumerate(m2["nodes"]) if n["def"] == x[4:])
+                return x
+            for a, b, k, sp in patch.get("edges", []):
+                m2["edges"].append([ref(a), ref(b), k, sp])
+            for a, sig, b, how in patch.get("reified", []):
+                m2["reified"].append([ref(a), sig, ref(b), how])
+            self._cache[key] = m2
+        return self._cache[key]
+
+
+CONTROL_MODE = False
+CONTROL_RESULTS = []
+
+
+def run_controls(pid, module, facts, tier):
+    """Positive controls: every fixture registered for this property must make its rule fire."""
+    global CONTROL_MODE
+    reg_path = os.path.join(VERIF, "fixtures", "controls.json")
+    if not os.path.exists(reg_path):
+        return
+    reg = json.load(open(reg_path))
+    todo = [c for c in reg if pid in c["expect"]]
+    if tier != "thorough":
+        todo = [c for c in todo if c.get("quick", True)]
+    for c in todo:
+        fx = json.load(open(os.path.join(VERIF, "fixtures", c["fixture"])))
+        CONTROL_MODE = True
+        try:
+            fired = module.run(Overlay(facts, fx), tier)
+        finally:
+            CONTROL_MODE = False
+        want = c["expect"][pid]
+        got = sorted({r for r in fired if r in want})
+        CONTROL_RESULTS.append({"control": c["id"], "what": c["what"], "expected_rules": want, "fired": got, "ok": set(got) == set(want)})
+
+
 # ---------------------------------------------------------------------------------------------
 
 
@@ -272,6 +359,16 @@ def load_known():
 
 def finish(pid, level, rules, t0, tier, explanation, assumptions, extra_cov=None, checker_cmd=None, trusted_base=None):
     """Write evidence, print VIOLATION / KNOWN-FINDING lines, return exit code."""
+    if CONTROL_MODE:
+        # positive-control run on overlaid facts: report which rules fired, no side effects
+        return sorted({r.id for r in rules if r.violations})
+    if CONTROL_RESULTS:
+        pc = Rule("PC", "positive controls: recorded facts of code known to violate a rule (reverse patches of repaired defects, seeded changes) are overlaid on the current facts and the rule must flag them", floor=1)
+        for c in CONTROL_RESULTS:
+            pc.examined(c["control"], True, c)
+            if not c["ok"]:
+                pc.violate(f"control/{c['control']}", f"positive control `{c['control']}` ({c['what']}) expected {c['expected_rules']} to fire, got {c['fired']}: the rule has gone blind")
+        rules = list(rules) + [pc.finish()]
     known = load_known()
     open_keys = {k["key"]: k for k in known.get("open", []) if k.get("property") == pid}
     viol = []
@@ -328,7 +425,7 @@ def finish(pid, level, rules, t0, tier, explanation, assumptions, extra_cov=None
         "level": level,
         "coverage": cov,
         "assumptions": assumptions,
-        "wall_s": round(time.time() - t0, 2),
+        "wall_s": round(time.time() - T_PROCESS, 2),
         "violations": len(viol),
     }
     os.makedirs(EVIDENCE, exist_ok=True)
